@@ -5,7 +5,7 @@ the oracle is intrinsic (no panic, library error type, position inside the sourc
 import json, os, re
 import vcommon as vc
 
-BAD = re.compile(r"(PANIC\(|FOREIGN\(|BADPOS\(|ERRORPANIC\(|KITLOSS\(|RUNTIME\(|EMPTYMSG\(|HANG|no_EOF)")
+BAD = re.compile(r"(PANIC\(|FOREIGN\(|BADPOS\(|ERRORPANIC\(|KITLOSS\(|RUNTIME\(|EMPTYMSG\(|NOPOS\((?!104\))|HANG|no_EOF)")   # NOPOS(104): the infinite-recursion error is a bare library error without a position; TestSchema_Check/negative/"invalid recursion" pins its text
 TOKENS = [b"{", b"}", b"[", b"]", b'"', b":", b",", b"//", b"/*", b"*/", b"#", b"###", b"@", b"|", b"\n", b"\r\n", b" ", b"\t",
           b"0", b"1", b"-", b".", b"e", b"E", b"+", b"\\", b"\\u", b"a", b"true", b"null", b"@t", b"\x00", b"\x1f", b"\x7f", b"\xff",
           b"// {", b"{min: 1}", b'{type: "@t"}', b"optional", b'{or: [', b"/", b"*", b"nullable: true", b'{enum: @e}', b"{regex: \"a\"}"]
@@ -118,6 +118,7 @@ def gen_cases(ctx, quick):
         for dt in (b'{ // {allOf: "@p"}\n}', b'{ // {allOf: "@p"}\n  "own": 2\n}', b'{ // {allOf: ["@p"]}\n  "o": true // {optional: true}\n}'):
             for rt in (b"@d", b'{"k": @d}', b"[@d]", b'{ // {allOf: "@d"}\n  "r": 1\n}'):
                 cases.append(("schemaTT", rt, dt, pt))
+                cases.append(("schemaTT0", rt, dt, pt))        # all three files unnamed: which file an error belongs to must not be decided by its name
     # truncation at every offset
     tr_s = S if not quick else rng.sample(S, min(len(S), 40)) + HAND_SCHEMAS
     for b in tr_s:
@@ -150,7 +151,7 @@ def gen_cases(ctx, quick):
     return cases
 
 
-SIG = re.compile(r"(\w+):((?:PANIC|KITPANIC|KITLOSS|FOREIGN|BADPOS|ERRORPANIC|RUNTIME|EMPTYMSG)\([^;]*\)|HANG|L\d+@\d+;no_EOF)")
+SIG = re.compile(r"(\w+):((?:PANIC|KITPANIC|KITLOSS|FOREIGN|BADPOS|ERRORPANIC|RUNTIME|EMPTYMSG|NOPOS)\([^;]*\)|HANG|L\d+@\d+;no_EOF)")
 
 
 def signature(out):
@@ -177,7 +178,7 @@ def run(ctx):
     ctx.extra["rule"] = ("Part A: Coq theorems over Gen/ErrTables (all codes, all errors.Format sites, all bare-code sites). Part C: every testdata "
                          "schema/enum/type/json file and hand-written seeds through every public constructor/method combination in two orders, truncated at every "
                          "offset, and token-level mutations (insert/delete/replace/cut/splice over a JSight token alphabet incl. control and high bytes) up to 4 KiB; "
-                         "violation = escaped panic, non-library error type, position outside the source, Error()/Message() panics, no EOF, hang; non-trivial = distinct "
+                         "violation = escaped panic, non-library error type, position outside the source or no position at all, Error()/Message() panics, no EOF, hang; non-trivial = distinct "
                          "input whose outcome contains at least one library error")
     ctx.assumptions += ["Part C is sampled (fuzzing), not proved: it supports the claim for the layers above the scanners",
                         "a position is 'inside the source' when < len(source), or 0 for an empty source"]
